@@ -53,7 +53,7 @@ CHECKS = {
          "hook automaton: start is the first hook of the innermost open invocation of that rule, apply/apply0 come at most once after start and before the closing hook, there is exactly one closing hook, and it agrees "
          "with what the invocation returned (success <=> true, failure <=> false, unwind <=> exception; without unwind() the attempt ends open with the invocation) (C08_balanced, C08_parse); the exact events match() adds "
          "around the body (C08_protocol); per rule #start = #success + #failure + #unwind (C08_coverage). Proved once through a generic induction principle for trace predicates closed under concatenation."),
-   note=GENERAL_NOTE + " 'raise only from a must-context or raise rule' is checked by the trace oracle, not yet a theorem. The real coverage<>() facility is exercised on corpus grammars with throwing actions and its counters are checked; its code is not modelled.",
+   note=GENERAL_NOTE + " 'raise only from a must-context or raise rule' is the theorem C08_raise_source (second trace automaton). The real coverage<>() facility is exercised on corpus grammars with throwing actions and its counters are checked; its code is not modelled.",
    technique="Lean 4 proof that every model trace is accepted by a hook-protocol stack automaton (+ counting corollary); differential correspondence; same automaton as independent Python oracle; coverage<>() counter check"),
  'C09': dict(engine='matcher-model', design_ref='DESIGN.md §6 C09',
    text=("Proof (Lean 4): every hand-optimised match() body (until, rep, rep_min_max, rep_opt, if_then_else, strict, star_strict, plus, partial, star_partial, rematch, must, if_must/opt_must, "
